@@ -30,6 +30,9 @@ PAL_MORE = [
     ({'k': 'fmt', 'v': 'UL_RED'}, ['4', '58;5;9']),
     ({'k': 'str', 'v': 'bold;red'}, ['1', '31']),
     ({'k': 'aset', 'v': '31'}, ['31']),
+    ({'k': 'str', 'v': 'rgb(10,20,30)'}, ['38;2;10;20;30']),
+    ({'k': 'str', 'v': 'bg_color256(7)'}, ['48;5;7']),
+    ({'k': 'str', 'v': 'rgb(0xFF0000)'}, ['38;2;255;0;0']),
 ]
 # less common effect groups and codes, thresholds of the colour arguments
 PAL_RARE = [
@@ -373,7 +376,7 @@ class Gen:
         n = self.length(r)
         f, d = self.rng.choice([c for c in PAL_CORE + PAL_MORE if len(c[1]) == 1])
         conflicts = {'1': '22', '22': '1', '31': '34', '34': '31', '2': '1', '3': '23', '4': '24', '42': '41', '39': '31', '38;5;214': '31',
-                     '38;2;1;2;3': '34', '48;5;7': '41'}
+                     '38;2;1;2;3': '34', '48;5;7': '41', '38;2;10;20;30': '34', '38;2;255;0;0': '34'}
         g_ = conflicts.get(d[0], '34')
         self.do({'op': 'apply', 'r': r, 'sets': [f], 'S': d, 'start': 0, 'end': None, 'top': True})
         self.do({'op': 'apply', 'r': r, 'sets': [{'k': 'aset', 'v': g_}], 'S': [g_], 'start': self.rng.choice([0, 1]), 'end': self.rng.choice([None, n - 1]), 'top': True})
@@ -478,6 +481,68 @@ class Gen:
         if self.rng.random() < 0.6:
             o2['sets'], o2['S'] = forms2, S2
         self.do(o2)
+
+    def g_remove_disjoint(self):
+        """Several settings that are present but never together on one character, removed in one call."""
+        if not self.room(4):
+            return
+        text = self.text(3)
+        n = len(text)
+        if n < 3:
+            return
+        cls = self.rng.choice('SAA')
+        r = self.do({'op': 'new', 'cls': 'S', 'text': text, 'sets': [], 'S': []})['res'][0]
+        j = self.rng.randint(1, n - 1)
+        x, y = self.rng.sample(['1', '4', '31', '42', '3'], 2)
+        self.do({'op': 'apply', 'r': r, 'sets': [{'k': 'aset', 'v': x}], 'S': [x], 'start': 0, 'end': j, 'top': True})
+        self.do({'op': 'apply', 'r': r, 'sets': [{'k': 'aset', 'v': y}], 'S': [y], 'start': j, 'end': n, 'top': True})
+        if cls == 'A':
+            r = self.do({'op': 'new', 'cls': 'A', 'src': r, 'sets': [], 'S': []})['res'][0]
+        forms = [{'k': 'aset', 'v': x}, {'k': 'aset', 'v': y}]
+        if self.rng.random() < 0.3:
+            forms = [{'k': 'str', 'v': x + ';' + y}]
+        self.do({'op': 'remove', 'r': r, 'sets': forms, 'S': [x, y], 'start': 0, 'end': None})
+
+    def g_find_overlap(self):
+        """The same setting applied on two overlapping ranges, then searched for."""
+        r = self.pick('S')
+        if not r or self.length(r) < 4:
+            return
+        n = self.length(r)
+        f, d = self.rng.choice([c for c in PAL_CORE + PAL_MORE if len(c[1]) == 1])
+        a_ = self.rng.randint(0, n - 3)
+        b_ = self.rng.randint(a_ + 2, n - 1)
+        c_ = self.rng.randint(a_ + 1, b_ - 1)
+        self.do({'op': 'apply', 'r': r, 'sets': [f], 'S': d, 'start': a_, 'end': b_, 'top': True})
+        self.do({'op': 'apply', 'r': r, 'sets': [f], 'S': d, 'start': c_, 'end': self.rng.randint(b_, n), 'top': self.rng.random() < 0.7})
+        self.do({'op': 'find_settings', 'r': r, 'sets': [f], 'S': d, 'start': self.rng.choice([0, a_]), 'end': None, 'reverse': self.rng.random() < 0.3})
+
+    def g_shrink_then_find(self):
+        """Query, shorten the object in place from the left (clip / lstrip / removeprefix / replace), query again."""
+        r = self.pick('S')
+        if not r or self.length(r) < 3:
+            return
+        n = self.length(r)
+        t = self.base_text(r)
+        present = sorted({tuple(self.m.texts.rows[tt - 1]) for row in self.m.snaps[r]['s'] for (_, tt) in row})
+        cands = [(f, d) for (f, d) in PAL_CORE + PAL_MORE if len(d) == 1 and tuple(map(ord, d[0])) in present]
+        f, d = self.rng.choice(cands) if cands else self.rng.choice(PAL_CORE)
+        self.do({'op': 'ansi_settings_at', 'r': r, 'i': 0})
+        self.do({'op': 'find_settings', 'r': r, 'sets': [f], 'S': d, 'start': 0, 'end': None})
+        k = self.rng.randint(1, n - 1)
+        how = self.rng.choice(['clip', 'rmfix', 'strip', 'replace'])
+        if how == 'clip':
+            self.do({'op': 'clip', 'r': r, 'start': k, 'end': None, 'inplace': True})
+        elif how == 'rmfix':
+            self.do({'op': 'rmfix', 'r': r, 'm': 'removeprefix', 's': t[:k], 'inplace': True})
+        elif how == 'strip':
+            self.do({'op': 'strip', 'r': r, 'm': 'lstrip', 'chars': t[:1], 'inplace': True})
+        elif self.room(2):
+            e = self.do({'op': 'lit', 'text': ''})
+            self.do({'op': 'replace', 'r': r, 'old': t[:1], 'new': e['res'][0], 'count': 1, 'inplace': True})
+        self.do({'op': 'ansi_settings_at', 'r': r, 'i': 0})
+        self.do({'op': 'find_settings', 'r': r, 'sets': [f], 'S': d, 'start': 0, 'end': None})
+        self.do({'op': 'find_settings', 'r': r, 'sets': [f], 'S': d, 'start': 0, 'end': None, 'reverse': True})
 
     def g_clear(self):
         r = self.pick()
@@ -1006,13 +1071,13 @@ PROFILES = {
                 partition=2.5, assign_str=1.5, apply=1.5, remove=0.5, add=0.5),
     'C12': dict(nonuniform=2, new=1, pad=5, pad_nested=1.5, pad_pair=1.5, fmt=5, apply=2, remove=0.5, slice=0.5, add=0.5),
     'C16': weights(matching=6, apply_match=1.0, apply=3, remove=1, slice=0.5, render=0.2, case=1.5, copy=0.3, match_case_match=1.5, matching_adjacent=1.5),
-    'C17': weights(find_settings=5, settings_at=2.5, apply=4, remove=2, slice=0.5, add=0.7, iadd=0.7, pad=1.2, assign_str=0.6, grow_then_slice=1.5,
+    'C17': weights(find_settings=5, settings_at=2.5, apply=4, remove=2, slice=0.5, add=0.7, iadd=0.7, pad=1.2, assign_str=0.6, grow_then_slice=1.5, find_overlap=1.5, shrink_then_find=1.5,
                    strip=0.5, new_from=0.8),
     'C04': weights(slice=5, index=2, clip=2, iter=1.5, iter_join=0.6, apply=3, remove=1.5, pad=0.8, assign_str=0.6, strip=0.4,
                    same_form_nested=1.2, grow_then_slice=1.2),
     'C05': weights(add=4, iadd=4, join=2, split_rejoin=2, slice=2, iter_join=1.0, shared_objects=0.8, seam_order=1.2, same_form_nested=1.0, join_plain_escapes=1.0),
     'C06': weights(apply=6, remove=1.5, slice=1, restart_leftover=1.5, bottom_at_begin=1.5, same_form_nested=1.5, apply_match=0.7),
-    'C07': weights(remove=4, remove_edge=2.5, apply=5, clear=0.3, remove_prefixlike=1.2),
+    'C07': weights(remove=4, remove_edge=2.5, apply=5, clear=0.3, remove_prefixlike=1.2, remove_disjoint=1.2),
     'C08': weights(copy=3, eq=0.8, add=2.5, iadd=2.5, join=1.5, slice=3, new_from=2, replace=2, pad=0.7, strip=0.5, split=0.5, fmt=0.7,
                    matching=0.5, case=0.3),
     'C09': weights(iter_join=1.0, iadd=2.5, replace=1.0, pad=2.0, pad_nested=1.0, remove_edge=0.7, restart_leftover=0.5, shared_objects=0.8, split=0.7, partition=0.5, strip=0.5, rmfix=0.5, case=0.3,
